@@ -27,3 +27,21 @@ pub fn extend_be_u32(out: &mut Vec<u8>, v: u32) ensures final(out)@ == old(out)@
 pub fn extend_be_u16(out: &mut Vec<u8>, v: u16) ensures final(out)@ == old(out)@ + be16(v) { out.extend(v.to_be_bytes()) }
 #[verifier::external_body]
 pub fn extend_vec(out: &mut Vec<u8>, v: Vec<u8>) ensures final(out)@ == old(out)@ + v@ { out.extend(v) }
+
+impl<K, V> VBTreeMap<K, V> {
+    // R8: `map.entry(k).or_insert(v)` -- insert only if the key is absent
+    #[verifier::external_body]
+    pub fn insert_if_absent(&mut self, k: K, v: V)
+        ensures final(self)@ == (if old(self)@.contains_key(k) { old(self)@ } else { old(self)@.insert(k, v) })
+    { unimplemented!() }
+}
+impl<V> VBTreeMap<u32, V> {
+    // R8: consuming iteration of a BTreeMap<u32, _>: every entry exactly once, in increasing key order
+    #[verifier::external_body]
+    pub fn into_sorted_vec(self) -> (r: Vec<(u32, V)>)
+        ensures
+            forall|i: int, j: int| 0 <= i < j < r@.len() ==> r@[i].0 < r@[j].0,
+            forall|i: int| 0 <= i < r@.len() ==> self@.contains_key(r@[i].0) && self@[r@[i].0] == r@[i].1,
+            forall|k: u32| self@.contains_key(k) ==> exists|i: int| 0 <= i < r@.len() && r@[i].0 == k,
+    { unimplemented!() }
+}
